@@ -173,7 +173,8 @@ func TestVerifC13(t *testing.T) {
 		switch {
 		case lb.Scheme != "https":
 			why = "not-https"
-		case rok && rb.HasQuery:
+		case rok && rb.HasQuery && rb.Query != "":
+			// (a bare trailing '?' is an empty query: no query string reaches the client; counted below, not judged)
 			why = "has-query"
 		case rok && verifPathHasDotDot(rb.Path):
 			why = "dotdot-segment"
@@ -183,6 +184,9 @@ func TestVerifC13(t *testing.T) {
 				why = "" // trailing dot of a listed host: same DNS name; not judged
 				rep.Count("trailing_dot_of_listed_host_accepted", 1)
 			}
+		}
+		if why == "" && rok && rb.HasQuery {
+			rep.Count("accepted_with_empty_query_mark", 1)
 		}
 		if why == "" && len(cl.Patterns) > 0 {
 			m := false
